@@ -28,6 +28,7 @@ type Case struct {
 	Desc          string   `json:"desc,omitempty"`
 	ImplViolation string   `json:"impl_violation,omitempty"`
 	Class         string   `json:"class,omitempty"`
+	Corr          string   `json:"corr,omitempty"` // Coq module whose case type this term has (default: the driver's)
 	Seed          uint64   `json:"seed"`
 	Tier          string   `json:"tier"`
 }
